@@ -278,7 +278,7 @@ func c04Leaves() []c04Leaf {
 // every payload carries the marker zqx, so that a planted value can be found again in the output
 var c04Payloads = []string{
 	";zqx", "{zqx", "}zqx", "\"zqx", "'zqx", "zqx\\", "\nzqx", "#zqx", " #zqx", "$zqx", "${zqx}", "; zqx on;", "\"; zqx on; #", "' zqx", "\\\"zqx",
-	"}\nzqx{", " zqx", "\tzqx",
+	"}\nzqx{", " zqx", "\tzqx", "\rzqx", "\fzqx",
 	// a backslash does not stop NGINX from reading a variable; percent-encoded forms of the breaking characters (they must
 	// stay encoded)
 	"\\$zqx", "\\${zqx}", "%3B%20zqx%20on%3B", "%22%3B%20zqx%20on%3B%20%23", "%0Azqx%7B", "%24zqx",
@@ -445,6 +445,8 @@ func TestVerifC04(t *testing.T) {
 			}
 			// ... a variable behind a backslash and a percent-encoded breaker in valid surroundings, and one seeded payload
 			jobs = append(jobs, job{l, "\\$zqx", "valid"}, job{l, "%22%3B%20zqx%20on%3B%20%23", "valid"})
+			// ... white space other than the blank (NGINX separates arguments at line feeds, carriage returns and tabs too)
+			jobs = append(jobs, job{l, []string{"\nzqx", "\rzqx", "\tzqx"}[rng.Intn(3)], "valid"})
 			jobs = append(jobs, job{l, c04Payloads[rng.Intn(len(c04Payloads))], "valid"})
 		}
 	}
